@@ -299,7 +299,10 @@ func tssWorld(prop string) simcore.World {
 						}
 					}
 					reading := rxtIn.Add(time.Duration(tp.Range(0, 50000, "proc")))
-					switch tp.Intn(6, "readkind") {
+					switch tp.Intn(7, "readkind") {
+					case 6: // a nanosecond or a few after the packet's receive time (where a bumped receive timestamp lands)
+						reading = rxtIn.Add(time.Duration(1 + tp.Intn(4, "ns-after")))
+						r.Probe("clock-reading-nanoseconds-after-rx-stamp")
 					case 0:
 						reading = rxtIn // clock reading equal to the receive time
 						r.Fault("clock-reading-not-after-rx-stamp")
